@@ -18,7 +18,7 @@ import (
 	"gonum.org/v1/gonum/verifx/vrt"
 )
 
-var only = flag.String("workload", "", "comma separated subset of workloads: ex4,ex4u,small,large,ties,yen,dstar,float (default all)")
+var only = flag.String("workload", "", "comma separated subset of workloads: ex4,ex4u,small,large,ties,yen,dstar,dstar0,float (default all)")
 
 func main() { vrt.Main("C13", run) }
 
@@ -65,9 +65,17 @@ func run(c *vrt.Ctx) {
 		yenGraphs(c, c.Pick(15000, 250000))
 	}
 	if want("dstar") {
-		n := c.Pick(5000, 80000)
+		n := c.Pick(12000, 80000)
 		vrt.Parallel(n, func(i int) {
-			runDStar(c, c.RNG("dstar", i), 50)
+			runDStar(c, c.RNG("dstar", i), 50, false)
+		})
+	}
+	if want("dstar0") {
+		// zero-weight worlds: outside the D* Lite papers' domain but not
+		// excluded by gonum's documentation
+		n := c.Pick(400, 4000)
+		vrt.Parallel(n, func(i int) {
+			runDStar(c, c.RNG("dstar0", i), 30, true)
 		})
 	}
 	if want("float") {
